@@ -66,7 +66,7 @@ def render_pipe(pipe) -> str:
                 lines.append(f'  - {st}')
                 continue
             first = True
-            order = ['name', 'in', 'run', 'skip', 'swallow', 'foreach', 'while', 'retry', 'onError']
+            order = ['name', 'description', 'in', 'run', 'skip', 'swallow', 'foreach', 'while', 'retry', 'onError']
             for key in order:
                 if key not in st:
                     continue
@@ -106,6 +106,9 @@ def strip_for_model(prog):
                     for k in ('while', 'retry'):
                         if k in st and st[k] is None:
                             del st[k]
+                    # a description only words the step's notification (directed cases keep its up-front
+                    # evaluation of run/skip free of errors): not part of the model's step
+                    st.pop('description', None)
     return out
 
 
